@@ -188,16 +188,25 @@ void ScriptStack::MoveTop(ScriptVariable&& other)
 void ScriptStack::Archive(Archiver& arc)
 {
     uint32_t stackSize = 0;
+    // a thread can be suspended with operands on its stack (`local.r = waitthread label`):
+    // the position of the top belongs to the saved state
+    uint32_t topIndex = 0;
 
     if (arc.Loading())
     {
         arc.ArchiveUInt32(stackSize);
+        arc.ArchiveUInt32(topIndex);
         *this = ScriptStack(stackSize);
+        if (topIndex < stackSize) {
+            pTop = localStack + topIndex;
+        }
     }
     else
     {
         stackSize = (uint32_t)GetStackSize();
+        topIndex = (uint32_t)GetIndex();
         arc.ArchiveUInt32(stackSize);
+        arc.ArchiveUInt32(topIndex);
     }
 
     for (uint32_t i = 0; i < stackSize; i++) {
